@@ -24,7 +24,9 @@ public:
     static status assign_thread_info(Token& token) {
         for (auto&& elem : thread_info_table_) {
             if (elem.gain_the_right()) {
+                YAKUSHIMA_VERIF_HOOK(YAKUSHIMA_VERIF_LOAD, nullptr);
                 elem.set_begin_epoch(epoch_management::get_epoch());
+                YAKUSHIMA_VERIF_EVENT(YAKUSHIMA_VERIF_EV_ENTER, &(elem), 0);
                 token = &(elem);
                 return status::OK;
             }
@@ -83,6 +85,7 @@ public:
      */
     static status leave_thread_info(Token token) {
         auto* target = static_cast<thread_info*>(token);
+        YAKUSHIMA_VERIF_EVENT(YAKUSHIMA_VERIF_EV_LEAVE, target, 0);
         target->set_begin_epoch(0);
         target->set_running(false);
         return status::OK;
